@@ -71,7 +71,21 @@ func JoinRun(m *MultiBucket, writers, opsEach, keys int, r *rng.R) (JoinResult, 
 				default:
 				}
 				key := fmt.Sprintf("k%d", wr.Intn(keys))
-				_, cas, ok, _ := writerOp(c, wr, key, fmt.Sprintf("w%d.%d", wi, i), last, true)
+				var cas uint64
+				var ok bool
+				if wi%2 == 1 && wr.Intn(2) == 0 {
+					// every other writer is a replicator half of the time: its versions carry a CAS of its own choosing, a little
+					// ahead of the key's current one and of the clock - mutations like any other for "none is lost"
+					_, cur, _ := c.GetRaw(key)
+					mcas := cur
+					if now := uint64(time.Now().UnixNano()); now > mcas {
+						mcas = now
+					}
+					mcas = (mcas+uint64(1+wr.Intn(500))*0x10000)&^0xFFFF | uint64(0x8001+wr.Intn(0x7000))
+					ok = c.SetWithMeta(ctxBG, key, cur, mcas, 0, nil, []byte(fmt.Sprintf(`{"v":"m%d.%d"}`, wi, i)), sgbucket.FeedDataTypeJSON) == nil
+				} else {
+					_, cas, ok, _ = writerOp(c, wr, key, fmt.Sprintf("w%d.%d", wi, i), last, true)
+				}
 				if ok {
 					acked.Add(1)
 					if cas != 0 {
